@@ -356,19 +356,19 @@ func init() {
 	tree := "the tree of distinguishable server behaviours, generated lazily by the explorer: for the cluster lookup and then for each host in order, the answer to the unauthenticated request {digest challenge, 200 without challenge, Basic challenge, 401 without header, 403, 404, 500 echoing the request headers, connection reset, malformed digest challenge} and, after a challenge, the answer to the authenticated request {200, 401, 403, 404, 500-echo, connection reset, 200 with the body cut after 0 / 1 / half / all-but-one bytes}; requests after a failing one are never generated because the model says none is sent"
 	register(&PropDef{
 		ID: "C16", Level: "model_checking",
-		Rule: "success side of " + tree + " (every request challenged or not) x 1..5 hosts (two name sets, one whose order differs from sorted order) x ports {all, none, mixed} x window flags {none, both} x payload kinds {valid, gzip of nothing, multi-member, 1500 lines, zero bytes, not gzip, over-long line, blank/garbage lines} as deviations (quick <=1, thorough <=2) x redaction flag sets, at the library level (DownloadClusterLogs + ProcessMongoLogFile + DeleteClusterLogs as main() calls them) and through the real main() in a child process; plus the full tree with faults (<=1 deviation) for 3 / 2 hosts. Reference model (DESIGN.md 2.9): exact request sequence (one cluster GET, then per host in connection-string order one download, each preceded at most by its challenge round), all to https://cloud.mongodb.com, project / cluster / host in the path, startDate / endDate equal to the flags or [now-7d, now]; every Authorization header must be a digest response that verifies against the key pair; exit status class; temp files hold the payload bytes verbatim; <out>.<i> equals the redaction of payload i under the flags and nothing else is in the output directory. states = scripts, transitions = requests, every script executed on the implementation",
+		Rule:        "success side of " + tree + " (every request challenged or not) x 1..5 hosts (two name sets, one whose order differs from sorted order) x ports {all, none, mixed} x window flags {none, both} x payload kinds {valid, gzip of nothing, multi-member, 1500 lines, zero bytes, not gzip, over-long line, blank/garbage lines} as deviations (quick <=1, thorough <=2) x redaction flag sets, at the library level (DownloadClusterLogs + ProcessMongoLogFile + DeleteClusterLogs as main() calls them) and through the real main() in a child process; plus the full tree with faults (<=1 deviation) for 3 / 2 hosts. Reference model (DESIGN.md 2.9): exact request sequence (one cluster GET, then per host in connection-string order one download, each preceded at most by its challenge round), all to https://cloud.mongodb.com, project / cluster / host in the path, startDate / endDate equal to the flags or [now-7d, now]; every Authorization header must be a digest response that verifies against the key pair; exit status class; temp files hold the payload bytes verbatim; <out>.<i> equals the redaction of payload i under the flags and nothing else is in the output directory. states = scripts, transitions = requests, every script executed on the implementation",
 		Assumptions: []string{"SRV connection strings need DNS: only 'no credential leaves, nothing foreign is contacted' is checked for them", "net/http, TLS and sockets below http.DefaultTransport are trusted", "the redaction flags reach the child through the argv wiring that C01's CLI pass ties to the in-process setters"},
 		Run:         c16Run, Post: atlasPost,
 	})
 	register(&PropDef{
 		ID: "C17", Level: "fault_enumeration",
-		Rule: tree + " x 1..4 hosts x cluster description kinds {standard, SRV, not JSON, no connection string, malformed string} x payload kinds x output faults {<out>.<k> is a directory for each k, output directory missing} as deviations (quick <=1, thorough <=2), at the library level and (<=1 deviation, 3 / 4 hosts) through the real main() in a child process with its own TMPDIR. Oracle: after the function returns / the process exits, TMPDIR holds no file - on success and on every failure. distinct = distinct scripts",
+		Rule:        tree + " x 1..4 hosts x cluster description kinds {standard, SRV, not JSON, no connection string, malformed string} x payload kinds x output faults {<out>.<k> is a directory for each k, output directory missing} as deviations (quick <=1, thorough <=2), at the library level and (<=1 deviation, 3 / 4 hosts) through the real main() in a child process with its own TMPDIR. Oracle: after the function returns / the process exits, TMPDIR holds no file - on success and on every failure. distinct = distinct scripts",
 		Assumptions: []string{"TMPDIR is the only place downloads are stored (os.CreateTemp with the default directory)"},
 		Run:         c17Run,
 	})
 	register(&PropDef{
 		ID: "C20", Level: "fault_enumeration",
-		Rule: tree + " x 1..3 hosts x deviations (cluster description kinds, payload kinds, output faults) x ways of supplying the key pair {both flags, both environment, public flag + private environment, public environment + private flag}, at the library level and through the real main() in a child process. Oracle: the private-key canary (characters that change under URL-, base64- and JSON-encoding) in the forms verbatim / URL-encoded / path-escaped / base64 / base64url / base64(public:private) / JSON-escaped occurs in no request line, header or body, not in stdout, stderr, output files, files left in TMPDIR or the sandbox; no Authorization header is sent before a digest challenge was received, every Authorization header is a digest response, every request goes to https://cloud.mongodb.com. distinct = distinct scripts",
+		Rule:        tree + " x 1..3 hosts x deviations (cluster description kinds, payload kinds, output faults) x ways of supplying the key pair {both flags, both environment, public flag + private environment, public environment + private flag}, at the library level and through the real main() in a child process. Oracle: the private-key canary (characters that change under URL-, base64- and JSON-encoding) in the forms verbatim / URL-encoded / path-escaped / base64 / base64url / base64(public:private) / JSON-escaped occurs in no request line, header or body, not in stdout, stderr, output files, files left in TMPDIR or the sandbox; no Authorization header is sent before a digest challenge was received, every Authorization header is a digest response, every request goes to https://cloud.mongodb.com. distinct = distinct scripts",
 		Assumptions: []string{"HTTP redirects and proxies are not among the scripted behaviours", "the digest response itself (an MD5 over the key) is the sanctioned use"},
 		Run:         c20Run,
 	})
